@@ -65,7 +65,7 @@ VARIABLES
     \* write task
     ws, flushed, needsSync, fstart, bp, wreg,
     \* scheduling: TRUE while the environment acts without the runtime having been polled
-    burst,
+    burst, breads,
     \* property monitor, script
     p, hist, done
 
@@ -73,9 +73,9 @@ envVars == <<lane, rlinked, outbox, down, wire, aq, cq, cstate, copt, ncmd, nset
 attVars == <<rq, wq, attDone>>
 readVars == <<rs, dl, awL, awS, reg, cur, syncEv>>
 writeVars == <<ws, flushed, needsSync, fstart, bp, wreg>>
-vars == <<envVars, attVars, readVars, writeVars, burst, p, hist, done>>
+vars == <<envVars, attVars, readVars, writeVars, burst, breads, p, hist, done>>
 \* the mechanism state without the script (what a state of the implementation is)
-MView == <<envVars, attVars, readVars, writeVars, burst, p, done>>
+MView == <<envVars, attVars, readVars, writeVars, burst, breads, p, done>>
 
 Keys == {KeySeq[i] : i \in 1..Len(KeySeq)}
 NoOp == [o |-> "none"]
@@ -106,7 +106,7 @@ Init ==
     /\ rs = "run" /\ dl = "init" /\ awL = <<>> /\ awS = <<>> /\ reg = <<>> /\ cur = NoOp /\ syncEv = FALSE
     /\ ws = "start" /\ flushed = TRUE /\ needsSync = FALSE /\ fstart = FALSE /\ bp = <<>> /\ wreg = {}
     /\ p = PInit(Kind, Enabled)
-    /\ hist = <<>> /\ done = FALSE /\ burst = FALSE
+    /\ hist = <<>> /\ done = FALSE /\ burst = FALSE /\ breads = 0
 
 -----------------------------------------------------------------------------
 (* observations: deliveries to consumers go to P and to the script's expectation *)
@@ -117,9 +117,12 @@ Deliveries(ds) == [i \in 1..Len(ds) |-> [k |-> "crecv", c |-> ds[i].c, n |-> ds[
 \* internal action: feed events to P, append the deliveries to the expectation of the last
 \* environment action
 Observe(ds) ==
+    /\ burst' = FALSE /\ breads' = 0
     /\ p' = PSteps(p, Deliveries(ds))
     /\ hist' = IF ds = <<>> \/ hist = <<>> THEN hist
                ELSE [hist EXCEPT ![Len(hist)].del = @ \o ds]
+
+Silent == Observe(<<>>)
 
 To(c, ns) == IF Alive(c) THEN [i \in 1..Len(ns) |-> [c |-> c, n |-> ns[i]]] ELSE <<>>
 ToAll(cs, ns) == Concat([i \in 1..Len(cs) |-> To(cs[i], ns)])
@@ -127,16 +130,16 @@ ToAll(cs, ns) == Concat([i \in 1..Len(cs) |-> To(cs[i], ns)])
 -----------------------------------------------------------------------------
 (* attach_task                                                             *)
 
-G_A_Fwd == ~attDone /\ aq # <<>> /\ ~(stopped \/ rs = "done")
+G_A_Fwd == ~done /\ ~attDone /\ aq # <<>> /\ ~(stopped \/ rs = "done")
 A_Fwd ==
     /\ G_A_Fwd
     /\ rq' = Append(rq, Head(aq)) /\ wq' = Append(wq, Head(aq)) /\ aq' = Tail(aq)
     /\ UNCHANGED <<lane, rlinked, outbox, down, wire, cq, cstate, copt, ncmd, nset, stopped, closing,
-                   attDone, readVars, writeVars, p, hist, done>>
+                   attDone, readVars, writeVars, done>> /\ Silent
 
 \* take_until(combined_stop): stop trigger, or the kill switch once read/write has ended.
 \* Requests still queued are dropped with their channels (the consumer sees end of stream).
-G_A_Stop == ~attDone /\ (stopped \/ rs = "done" \/ ws = "stopped")
+G_A_Stop == ~done /\ ~attDone /\ (stopped \/ rs = "done" \/ ws = "stopped")
 A_Stop ==
     /\ G_A_Stop
     /\ attDone' = TRUE /\ aq' = <<>>
@@ -146,8 +149,14 @@ A_Stop ==
 
 -----------------------------------------------------------------------------
 (* read_task                                                               *)
+(* One poll of the runtime's future polls attach_task, then read_task,     *)
+(* then write_task (join(att, select(read, write))), each until it blocks: *)
+(* a task acts only when the tasks polled before it have nothing to do.    *)
+AttEnabled == G_A_Fwd \/ G_A_Stop
+ReadTurn == ~done /\ ~AttEnabled
 
-G_R_NewConsumer == rs = "run" /\ rq # <<>>
+RG_NewConsumer == rs = "run" /\ rq # <<>>
+G_R_NewConsumer == ReadTurn /\ RG_NewConsumer
 R_NewConsumer ==
     /\ G_R_NewConsumer
     /\ LET c == Head(rq) IN
@@ -162,7 +171,8 @@ R_NewConsumer ==
     /\ UNCHANGED <<envVars, wq, attDone, rs, dl, cur, syncEv, writeVars, done>>
 
 Msg == Head(down)
-G_R_Message == rs = "run" /\ down # <<>>
+RG_Message == rs = "run" /\ down # <<>>
+G_R_Message == ReadTurn /\ RG_Message
 
 R_Linked ==
     /\ G_R_Message /\ Msg.t = "linked"
@@ -208,7 +218,8 @@ R_Unlinked ==
                    wq, attDone, dl, cur, syncEv, writeVars, done>>
 
 \* ConsumerChannelStopped: the attach task has gone and the queue is drained
-G_R_Stop == rs = "run" /\ attDone /\ rq = <<>>
+RG_Stop == rs = "run" /\ attDone /\ rq = <<>>
+G_R_Stop == ReadTurn /\ RG_Stop
 R_Stop ==
     /\ G_R_Stop
     /\ EndRead(awL \o awS \o reg)
@@ -216,6 +227,9 @@ R_Stop ==
 
 -----------------------------------------------------------------------------
 (* write_task                                                              *)
+
+ReadEnabled == RG_NewConsumer \/ RG_Message \/ RG_Stop
+WriteTurn == ~done /\ ~AttEnabled /\ ~ReadEnabled
 
 FlushDone == Len(wire) <= SockCap
 RegReady == wq # <<>>
@@ -238,14 +252,14 @@ Push(q, op) ==
 DirectPath == flushed \/ ~fstart \/ FlushDone
 FlushedAfter == flushed \/ (fstart /\ FlushDone)
 
-G_W_LinkDone == ws = "start" /\ FlushDone
+G_W_LinkDone == WriteTurn /\ ws = "start" /\ FlushDone
 W_LinkDone ==
     /\ G_W_LinkDone
     /\ ws' = "idle" /\ fstart' = FALSE
-    /\ UNCHANGED <<envVars, attVars, readVars, flushed, needsSync, bp, wreg, p, hist, done>>
+    /\ UNCHANGED <<envVars, attVars, readVars, flushed, needsSync, bp, wreg, done>> /\ Silent
 
 \* Idle, registered.is_empty(): join(reg_requests.next(), flush)
-G_W_IdleEmpty_Reg == ws = "idle" /\ wreg = {} /\ RegReady /\ (flushed \/ FlushDone)
+G_W_IdleEmpty_Reg == WriteTurn /\ ws = "idle" /\ wreg = {} /\ RegReady /\ (flushed \/ FlushDone)
 W_IdleEmpty_Reg ==
     /\ G_W_IdleEmpty_Reg
     /\ LET c == Head(wq) IN
@@ -253,17 +267,17 @@ W_IdleEmpty_Reg ==
        /\ IF copt[c].sync THEN wire' = Append(wire, SyncF) /\ ws' = "wsync"
                           ELSE UNCHANGED wire /\ ws' = "idle"
     /\ UNCHANGED <<lane, rlinked, outbox, down, aq, cq, cstate, copt, ncmd, nset, stopped, closing,
-                   rq, attDone, readVars, bp, p, hist, done>>
+                   rq, attDone, readVars, bp, done>> /\ Silent
 
 \* Idle, not FLUSHED, nothing ready: immediate_or_start polls (starts) the flush and waits
-G_W_Idle_Block == ws = "idle" /\ wreg # {} /\ ~flushed /\ ~fstart /\ ~RegReady /\ ~AnyRec /\ ~StopReady
+G_W_Idle_Block == WriteTurn /\ ws = "idle" /\ wreg # {} /\ ~flushed /\ ~fstart /\ ~RegReady /\ ~AnyRec /\ ~StopReady
 W_Idle_Block ==
     /\ G_W_Idle_Block
     /\ fstart' = TRUE
-    /\ UNCHANGED <<envVars, attVars, readVars, ws, flushed, needsSync, bp, wreg, p, hist, done>>
+    /\ UNCHANGED <<envVars, attVars, readVars, ws, flushed, needsSync, bp, wreg, done>> /\ Silent
 
 \* select(reg_requests.next(), registered.next()): a registration wins over a record
-G_W_Idle_Reg == ws = "idle" /\ wreg # {} /\ RegReady
+G_W_Idle_Reg == WriteTurn /\ ws = "idle" /\ wreg # {} /\ RegReady
 W_Idle_Reg ==
     /\ G_W_Idle_Reg
     /\ LET c == Head(wq) IN
@@ -276,9 +290,9 @@ W_Idle_Reg ==
                  /\ needsSync' = copt[c].sync /\ ws' = "wflush"
                  /\ UNCHANGED <<wire, flushed, fstart>>
     /\ UNCHANGED <<lane, rlinked, outbox, down, aq, cq, cstate, copt, ncmd, nset, stopped, closing,
-                   rq, attDone, readVars, bp, p, hist, done>>
+                   rq, attDone, readVars, bp, done>> /\ Silent
 
-G_W_Idle_Rec(c) == ws = "idle" /\ wreg # {} /\ ~RegReady /\ ~StopReady /\ c \in wreg /\ cq[c] # <<>>
+G_W_Idle_Rec(c) == WriteTurn /\ ws = "idle" /\ wreg # {} /\ ~RegReady /\ ~StopReady /\ c \in wreg /\ cq[c] # <<>>
 W_Idle_Rec(c) ==
     /\ G_W_Idle_Rec(c)
     /\ cq' = [cq EXCEPT ![c] = Tail(@)]
@@ -289,10 +303,10 @@ W_Idle_Rec(c) ==
          ELSE /\ bp' = Push(bp, Head(cq[c])) /\ ws' = "wflush"
               /\ UNCHANGED <<wire, flushed, fstart>>
     /\ UNCHANGED <<lane, rlinked, outbox, down, aq, cstate, copt, ncmd, nset, stopped, closing,
-                   attVars, readVars, needsSync, wreg, p, hist, done>>
+                   attVars, readVars, needsSync, wreg, done>> /\ Silent
 
 \* a consumer's command stream ended; SelectAll drops it, and yields None when it is empty
-G_W_Idle_Gone(c) == ws = "idle" /\ wreg # {} /\ ~RegReady /\ ~StopReady /\ c \in wreg /\ cq[c] = <<>> /\ ~Alive(c)
+G_W_Idle_Gone(c) == WriteTurn /\ ws = "idle" /\ wreg # {} /\ ~RegReady /\ ~StopReady /\ c \in wreg /\ cq[c] = <<>> /\ ~Alive(c)
 W_Idle_Gone(c) ==
     /\ G_W_Idle_Gone(c)
     /\ wreg' = wreg \ {c}
@@ -300,13 +314,13 @@ W_Idle_Gone(c) ==
          THEN IF DirectPath THEN flushed' = FlushedAfter /\ fstart' = FALSE /\ UNCHANGED ws
                             ELSE ws' = "wflush" /\ UNCHANGED <<flushed, fstart>>
          ELSE UNCHANGED <<ws, flushed, fstart>>
-    /\ UNCHANGED <<envVars, attVars, readVars, needsSync, bp, p, hist, done>>
+    /\ UNCHANGED <<envVars, attVars, readVars, needsSync, bp, done>> /\ Silent
 
 Writing == ws \in {"wsync", "wflush"}
 NeedsSyncNow == IF wreg = {} THEN FALSE ELSE needsSync
 
 \* SuspendedCompleted: the pending send_sync / flush has completed
-G_W_Wr_Done == Writing /\ FlushDone
+G_W_Wr_Done == WriteTurn /\ Writing /\ FlushDone
 W_Wr_Done ==
     /\ G_W_Wr_Done
     /\ IF NeedsSyncNow
@@ -319,36 +333,36 @@ W_Wr_Done ==
          ELSE /\ ws' = "idle" /\ fstart' = FALSE /\ needsSync' = FALSE
               /\ UNCHANGED <<wire, bp, flushed>>
     /\ UNCHANGED <<lane, rlinked, outbox, down, aq, cq, cstate, copt, ncmd, nset, stopped, closing,
-                   attVars, readVars, wreg, p, hist, done>>
+                   attVars, readVars, wreg, done>> /\ Silent
 
 \* NextRecord while writing is blocked: relieve backpressure
-G_W_Wr_Rec(c) == Writing /\ ~FlushDone /\ c \in wreg /\ cq[c] # <<>>
+G_W_Wr_Rec(c) == WriteTurn /\ Writing /\ ~FlushDone /\ c \in wreg /\ cq[c] # <<>>
 W_Wr_Rec(c) ==
     /\ G_W_Wr_Rec(c)
     /\ cq' = [cq EXCEPT ![c] = Tail(@)] /\ bp' = Push(bp, Head(cq[c]))
     /\ UNCHANGED <<lane, rlinked, outbox, down, wire, aq, cstate, copt, ncmd, nset, stopped, closing,
-                   attVars, readVars, ws, flushed, needsSync, fstart, wreg, p, hist, done>>
+                   attVars, readVars, ws, flushed, needsSync, fstart, wreg, done>> /\ Silent
 
-G_W_Wr_Gone(c) == Writing /\ ~FlushDone /\ c \in wreg /\ cq[c] = <<>> /\ ~Alive(c)
+G_W_Wr_Gone(c) == WriteTurn /\ Writing /\ ~FlushDone /\ c \in wreg /\ cq[c] = <<>> /\ ~Alive(c)
 W_Wr_Gone(c) ==
     /\ G_W_Wr_Gone(c)
     /\ wreg' = wreg \ {c}
     /\ needsSync' = IF wreg = {c} THEN FALSE ELSE needsSync
-    /\ UNCHANGED <<envVars, attVars, readVars, ws, flushed, fstart, bp, p, hist, done>>
+    /\ UNCHANGED <<envVars, attVars, readVars, ws, flushed, fstart, bp, done>> /\ Silent
 
 \* NewRegistration while writing is blocked: NEEDS_SYNC is remembered
-G_W_Wr_Reg == Writing /\ ~FlushDone /\ ~AnyRec /\ RegReady
+G_W_Wr_Reg == WriteTurn /\ Writing /\ ~FlushDone /\ ~AnyRec /\ RegReady
 W_Wr_Reg ==
     /\ G_W_Wr_Reg
     /\ LET c == Head(wq) IN
        /\ wq' = Tail(wq) /\ wreg' = wreg \cup {c}
        /\ needsSync' = (NeedsSyncNow \/ copt[c].sync)
     /\ UNCHANGED <<lane, rlinked, outbox, down, wire, aq, cq, cstate, copt, ncmd, nset, stopped, closing,
-                   rq, attDone, readVars, ws, flushed, fstart, bp, p, hist, done>>
+                   rq, attDone, readVars, ws, flushed, fstart, bp, done>> /\ Silent
 
 \* reg_requests.next() = None: "Instructed to stop".  What was written but not yet flushed into
 \* the socket is lost with the writer.
-G_W_Stop == /\ StopReady
+G_W_Stop == /\ WriteTurn /\ StopReady
             /\ \/ ws = "idle" /\ (wreg # {} \/ flushed \/ FlushDone)
                \/ Writing /\ ~FlushDone /\ ~AnyRec
 W_Stop ==
@@ -356,21 +370,7 @@ W_Stop ==
     /\ ws' = "stopped"
     /\ wire' = IF Len(wire) <= SockCap THEN wire ELSE SubSeq(wire, 1, SockCap)
     /\ UNCHANGED <<lane, rlinked, outbox, down, aq, cq, cstate, copt, ncmd, nset, stopped, closing,
-                   attVars, readVars, flushed, needsSync, fstart, bp, wreg, p, hist, done>>
-
-\* One poll of the runtime's future polls attach_task, then read_task, then write_task
-\* (join(att, select(read, write))), each until it blocks: a task acts only when the tasks
-\* polled before it have nothing to do.
-AttEnabled == G_A_Fwd \/ G_A_Stop
-ReadEnabled == G_R_NewConsumer \/ G_R_Message \/ G_R_Stop
-
-Internal ==
-    \/ A_Fwd \/ A_Stop
-    \/ /\ ~AttEnabled
-       /\ R_NewConsumer \/ R_Linked \/ R_Synced \/ R_Event \/ R_Unlinked \/ R_Stop
-    \/ /\ ~AttEnabled /\ ~ReadEnabled
-       /\ \/ W_LinkDone \/ W_IdleEmpty_Reg \/ W_Idle_Block \/ W_Idle_Reg \/ W_Wr_Done \/ W_Wr_Reg \/ W_Stop
-          \/ \E c \in Consumers : W_Idle_Rec(c) \/ W_Idle_Gone(c) \/ W_Wr_Rec(c) \/ W_Wr_Gone(c)
+                   attVars, readVars, flushed, needsSync, fstart, bp, wreg, done>> /\ Silent
 
 Quiescent ==
     ~(\/ G_A_Fwd \/ G_A_Stop
@@ -388,12 +388,15 @@ MayDrain == ~done /\ (Quiescent \/ (~Settled /\ burst))   \* reading / deliverin
 MayAct == MayDrain /\ Len(hist) < MaxSteps
 Open == ~closing                 \* neither stop nor unlink has been issued
 Pre == IF Quiescent THEN <<[k |-> "settle"]>> ELSE <<>>
+\* frames read from the socket since the runtime's writer last ran
+Reads0 == IF Quiescent THEN 0 ELSE breads
 
 \* an environment action: its events go to P (after the settle barrier if the system was
 \* quiescent), its record (inputs + the outputs M expects) starts a new script entry
 Act(rec, events) ==
     /\ p' = PSteps(p, Pre \o events)
     /\ hist' = Append(hist, rec @@ [pre |-> Quiescent, del |-> <<>>])
+NoRead == burst' = TRUE /\ breads' = Reads0
 
 Attach(c, o) ==
     /\ MayAct /\ Open /\ cstate[c] = "new"
@@ -401,6 +404,7 @@ Attach(c, o) ==
     /\ aq' = Append(aq, c)
     /\ Act([k |-> "attach", c |-> c, sync |-> o.sync, keep |-> o.keep, attached |-> TRUE],
            <<[k |-> "attach", c |-> c, sync |-> o.sync, keep |-> o.keep]>>)
+    /\ NoRead
     /\ UNCHANGED <<lane, rlinked, outbox, down, wire, cq, ncmd, nset, stopped, closing,
                    attVars, readVars, writeVars, done>>
 
@@ -416,6 +420,7 @@ CSend(c, op) ==
     /\ ncmd' = [ncmd EXCEPT ![c] = @ + 1]
     /\ cq' = [cq EXCEPT ![c] = Append(@, op)]
     /\ Act([k |-> "csend", c |-> c, op |-> op, sent |-> TRUE], <<[k |-> "csend", c |-> c, op |-> op]>>)
+    /\ NoRead
     /\ UNCHANGED <<lane, rlinked, outbox, down, wire, aq, cstate, copt, nset, stopped, closing,
                    attVars, readVars, writeVars, done>>
 
@@ -424,6 +429,7 @@ CDrop(c) ==
     /\ cstate' = [cstate EXCEPT ![c] = "dropped"]
     /\ awL' = Filter(awL, c) /\ awS' = Filter(awS, c) /\ reg' = Filter(reg, c)
     /\ Act([k |-> "cdrop", c |-> c], <<[k |-> "cdrop", c |-> c]>>)
+    /\ NoRead
     /\ UNCHANGED <<lane, rlinked, outbox, down, wire, aq, cq, copt, ncmd, nset, stopped, closing,
                    attVars, rs, dl, cur, syncEv, writeVars, done>>
 
@@ -444,8 +450,12 @@ RSends(ns) == [i \in 1..Len(ns) |-> [k |-> "rsend", n |-> ns[i]]]
 \* the frame at the head of the wire can be read: its flush is being driven
 Readable == wire # <<>> /\ ~(ws = "idle" /\ wreg # {} /\ ~flushed /\ ~fstart)
 
+\* Without a poll of the runtime in between, only the frames that are wholly inside the socket
+\* can be read (the first SockCap ones); otherwise the read completes with the writer's help,
+\* i.e. the runtime runs: the burst is over.
 RRead(hold) ==
-    /\ MayDrain /\ Readable
+    /\ MayDrain /\ Readable /\ (Quiescent \/ Reads0 < SockCap)
+    /\ breads' = Reads0 + 1 /\ burst' = (Reads0 < SockCap)
     /\ LET f == Head(wire)
            ans == Answer(f)
            out == IF hold THEN <<>> ELSE outbox \o ans IN
@@ -462,6 +472,7 @@ RPush ==
     /\ MayDrain /\ outbox # <<>>
     /\ outbox' = Tail(outbox) /\ down' = Append(down, Head(outbox))
     /\ Act([k |-> "rpush", resp |-> <<Head(outbox)>>], RSends(<<Head(outbox)>>))
+    /\ NoRead
     /\ UNCHANGED <<lane, rlinked, wire, aq, cq, cstate, copt, ncmd, nset, stopped, closing,
                    attVars, readVars, writeVars, done>>
 
@@ -476,6 +487,7 @@ RSet(op) ==
     /\ LET out == IF rlinked THEN outbox \o <<Ev(op)>> ELSE outbox IN
        /\ outbox' = <<>> /\ down' = down \o out
        /\ Act([k |-> "rset", op |-> op, resp |-> out], RSends(out))
+    /\ NoRead
     /\ UNCHANGED <<rlinked, wire, aq, cq, cstate, copt, ncmd, stopped, closing,
                    attVars, readVars, writeVars, done>>
 
@@ -485,12 +497,14 @@ RUnlink ==
     /\ LET out == outbox \o <<Ul>> IN
        /\ outbox' = <<>> /\ down' = down \o out
        /\ Act([k |-> "runlink", resp |-> out], RSends(out))
+    /\ NoRead
     /\ UNCHANGED <<lane, wire, aq, cq, cstate, copt, ncmd, nset, stopped, attVars, readVars, writeVars, done>>
 
 Stop ==
     /\ MayAct /\ Open /\ AllowStop
     /\ stopped' = TRUE /\ closing' = TRUE
     /\ Act([k |-> "stop"], <<[k |-> "stop"]>>)
+    /\ NoRead
     /\ UNCHANGED <<lane, rlinked, outbox, down, wire, aq, cq, cstate, copt, ncmd, nset,
                    attVars, readVars, writeVars, done>>
 
@@ -502,17 +516,20 @@ Finish ==
     /\ done' = TRUE
     /\ p' = PSteps(p, <<[k |-> "settle"], [k |-> "finish", running |-> Running]>>)
     /\ hist' = Append(hist, [k |-> "finish", pre |-> TRUE, del |-> <<>>, running |-> Running])
-    /\ UNCHANGED <<envVars, attVars, readVars, writeVars>>
+    /\ UNCHANGED <<envVars, attVars, readVars, writeVars, burst, breads>>
 
-Env ==
-    \/ \E c \in Consumers : \/ \E o \in OptSet : Attach(c, o)
-                            \/ \E op \in CmdOps(c) : CSend(c, op)
-                            \/ CDrop(c)
+Next ==
+    \/ A_Fwd \/ A_Stop
+    \/ R_NewConsumer \/ R_Linked \/ R_Synced \/ R_Event \/ R_Unlinked \/ R_Stop
+    \/ W_LinkDone \/ W_IdleEmpty_Reg \/ W_Idle_Block \/ W_Idle_Reg \/ W_Wr_Done \/ W_Wr_Reg \/ W_Stop
+    \/ \E c \in Consumers : W_Idle_Rec(c) \/ W_Idle_Gone(c) \/ W_Wr_Rec(c) \/ W_Wr_Gone(c)
+    \/ \E c \in Consumers : \E o \in OptSet : Attach(c, o)
+    \/ \E c \in Consumers : \E op \in CmdOps(c) : CSend(c, op)
+    \/ \E c \in Consumers : CDrop(c)
     \/ RRead(FALSE) \/ (AllowHold /\ RRead(TRUE)) \/ RPush
     \/ \E op \in SetOps : RSet(op)
     \/ RUnlink \/ Stop \/ Finish
 
-Next == (~done /\ Internal /\ burst' = FALSE) \/ (Env /\ burst' = TRUE)
 Spec == Init /\ [][Next]_vars
 
 -----------------------------------------------------------------------------
@@ -536,7 +553,7 @@ ListsDisjoint ==
     /\ (dl # "init") => awL = <<>>
 
 \* backpressure (and NEEDS_SYNC) are used only while a write is pending
-BackpressureOnlyWhileWriting == (bp # <<>> \/ needsSync) => Writing
+BackpressureOnlyWhileWriting == (bp # <<>> \/ needsSync) => (Writing \/ ws = "stopped")
 
 \* the buffer never holds two records for one key, nor anything before a clear
 BpWellFormed ==
